@@ -23,9 +23,14 @@ type Execution struct {
 }
 
 func NewExecution(query promql.Query, pool *model.VectorPool, opts *query.Options) *Execution {
+	// The remote result holds evaluated points, not scraped samples: a point
+	// belongs to its own step only and must not be carried to later steps by
+	// the lookback logic of the selector that replays it.
+	selectorOpts := *opts
+	selectorOpts.LookbackDelta = 0
 	return &Execution{
 		query:          query,
-		vectorSelector: scan.NewVectorSelector(pool, newStorageFromQuery(query), opts, 0, 0, 1, false),
+		vectorSelector: scan.NewVectorSelector(pool, newStorageFromQuery(query), &selectorOpts, 0, 0, 1, false),
 	}
 }
 
